@@ -8,6 +8,7 @@ import (
 	"github.com/virus-evolution/gofasta/pkg/fastaio"
 
 	biogosam "github.com/biogo/hts/sam"
+	"github.com/virus-evolution/gofasta/pkg/vhook"
 )
 
 // ToMultiAlign converts a SAM file containing pairwise alignments between assembled genomes to a fasta-format alignment.
@@ -132,6 +133,7 @@ func blockToFastaRecord(ch_in chan samRecords, ch_out chan fastaio.FastaRecord, 
 		if err != nil {
 			ch_err <- err
 		}
+		vhook.Ready("sam.blockToFastaRecord", group.idx)
 		ch_out <- getFastaRecord(rawseq, id, group.idx, trim, pad, trimstart, trimend)
 	}
 	return
